@@ -231,6 +231,29 @@ def run(ctx):
         ctx.ob('RELOAD', 'load-deserialises-map', bool(de), load[0].where(),
                'load_counters decodes the file with postcard::from_bytes (%d site)' % len(de))
 
+    # ---- the store never forgets a peer: no entry of the counters map is removed (its high-water mark would be
+    #      lost and 1,2,3,... accepted again), except by the explicit reset operation
+    nforget = 0
+    for b in prog.bodies.in_files(['src/monotonic_counter.rs']):
+        for cs in b.calls(r'HashMap::<.*>::(remove|remove_entry|retain|clear|drain|extract_if)$'):
+            if 'PeerCounter' not in (cs.fa or '') and 'PeerCounter' not in (L.operand_ty(b, cs.args[0]) or ''):
+                continue
+            nforget += 1
+            explicit = b.root == SYS + '::reset_peer_counter' and cs.callee.endswith('::remove')
+            n = sum(1 for o in ctx.obls if o.key.startswith('forget@%s' % b.id))
+            ctx.ob('NO-FORGET', 'forget@%s#%d' % (b.id, n), explicit, cs.where(),
+                   ('reset_peer_counter removes the peer on explicit request (outside the quantified submissions)' if explicit else
+                    '%s removes entries of the counters map: the removed peer\'s last_valid_sequence is lost and its numbers are accepted a second time'
+                    % cs.short()), entry=b.root)
+        for bi, si, st in b.stmts():
+            d = st['d']
+            if len(d) == 2 and d[1] == '*' and 'HashMap<' in b.local_ty(d[0]) and 'PeerCounter' in b.local_ty(d[0]) and st['r']['k'] != 'ref':
+                nforget += 1
+                n = sum(1 for o in ctx.obls if o.key.startswith('forget@%s' % b.id))
+                ctx.ob('NO-FORGET', 'forget@%s#%d' % (b.id, n), False, b.where(st.get('ln')),
+                       'the whole counters map is overwritten in place', entry=b.root)
+    ctx.floor('NO-FORGET', 1)
+
 
 def _ty_of_operand(b, a):
     if 'p' in a:
